@@ -2,6 +2,7 @@ package main
 
 import (
 	"fmt"
+	"path/filepath"
 	"go/token"
 	"go/types"
 	"strings"
@@ -168,6 +169,16 @@ func (ex *Exec) intrinsic(fr *Frame, st *State, key string, args []Val, sig *typ
 		if a != nil && b != nil {
 			return one(app(SBool, "str.suffixof", b, a))
 		}
+	case "strings.TrimSuffix":
+		a, b := strArg(args, 0), strArg(args, 1)
+		if a != nil && b != nil {
+			return one(ex.define("trimsuffix", &Term{S: fmt.Sprintf("(ite (str.suffixof %s %s) (str.substr %s 0 (- (str.len %s) (str.len %s))) %s)", b.S, a.S, a.S, a.S, b.S, a.S), Sort: SString}))
+		}
+	case "strings.TrimPrefix":
+		a, b := strArg(args, 0), strArg(args, 1)
+		if a != nil && b != nil {
+			return one(ex.define("trimprefix", &Term{S: fmt.Sprintf("(ite (str.prefixof %s %s) (str.substr %s (str.len %s) (- (str.len %s) (str.len %s))) %s)", b.S, a.S, a.S, b.S, a.S, b.S, a.S), Sort: SString}))
+		}
 	case "strings.ToLower", "strings.TrimSpace", "strings.ToUpper":
 		if a := strArg(args, 0); a != nil {
 			name := "str_" + strings.ToLower(strings.TrimPrefix(key, "strings."))
@@ -179,6 +190,67 @@ func (ex *Exec) intrinsic(fr *Frame, st *State, key string, args []Val, sig *typ
 			name := "os_" + strings.TrimPrefix(key, "os.")
 			ex.declareUF(name, []string{SErr}, SBool)
 			return one(app(SBool, name, e))
+		}
+	case "path/filepath.Clean", "path/filepath.Dir", "path/filepath.Base", "path/filepath.Ext", "path/filepath.ToSlash", "path/filepath.FromSlash":
+		if a := strArg(args, 0); a != nil {
+			if c, ok := constStr(a); ok {
+				switch key {
+				case "path/filepath.Clean":
+					return one(StrConst(filepath.Clean(c)))
+				case "path/filepath.Dir":
+					return one(StrConst(filepath.Dir(c)))
+				case "path/filepath.Base":
+					return one(StrConst(filepath.Base(c)))
+				case "path/filepath.Ext":
+					return one(StrConst(filepath.Ext(c)))
+				default:
+					return one(a)
+				}
+			}
+			name := map[string]string{"path/filepath.Clean": "cleanOf", "path/filepath.Dir": "dirOf", "path/filepath.Base": "baseOf", "path/filepath.Ext": "extOf",
+				"path/filepath.ToSlash": "", "path/filepath.FromSlash": ""}[key]
+			if name == "" {
+				return one(a) // linux: separators are already slashes
+			}
+			ex.declareUF(name, []string{SString}, SString)
+			ex.usedExtern[key+" as the uninterpreted function "+name+" (axioms in specs/path.spec)"] = true
+			return one(app(SString, name, a))
+		}
+	case "path/filepath.Join":
+		if sl, ok := args[0].(*SliceV); ok {
+			if n, ok := constBV(sl.Len); ok && n >= 1 {
+				var parts []*Term
+				allConst := true
+				for i := int64(0); i < n; i++ {
+					t, _ := ex.sliceGet(st, sl, BVInt(i, 64, true)).(*Term)
+					if t == nil || t.Sort != SString {
+						return nil, false
+					}
+					if _, c := constStr(t); !c {
+						allConst = false
+					}
+					parts = append(parts, t)
+				}
+				if allConst {
+					var cs []string
+					for _, t := range parts {
+						c, _ := constStr(t)
+						cs = append(cs, c)
+					}
+					return one(StrConst(filepath.Join(cs...)))
+				}
+				ex.declareUF("joinOf", []string{SString, SString}, SString)
+				ex.usedExtern["path/filepath.Join as the uninterpreted function joinOf (axioms in specs/path.spec)"] = true
+				cur := parts[0]
+				if n == 1 {
+					ex.declareUF("cleanOf", []string{SString}, SString)
+					return one(app(SString, "cleanOf", cur))
+				}
+				for _, t := range parts[1:] {
+					cur = app(SString, "joinOf", cur, t)
+				}
+				return one(cur)
+			}
 		}
 	case "(error).Error":
 		if e := errArg(0); e != nil {
